@@ -226,13 +226,14 @@ MODEL_FILTERS = {
     "join": ("SJoin", 0, 1), "first": ("SFirst", 0, 0), "last": ("SLast", 0, 0), "size": ("SSize", 0, 0), "sum": ("SSum", 0, 0),
     "compact": ("SCompact", 0, 1), "uniq": ("SUniq", 0, 1), "index": ("SIndex", 1, 1), "concat": ("SConcat", 1, 1),
     "default": ("SDefault", 0, 1), "json": ("SJson", 0, 1), "ngettext": ("SNgettext", 2, 2),
+    "reverse": ("SReverse", 0, 0), "sort_natural": ("SSortNatural", 0, 1), "map": ("SMap", 1, 1),
+    "t": ("(SGettext 0 1)", 0, 1), "gettext": ("(SGettext 0 0)", 0, 0), "pgettext": ("(SGettext 1 1)", 1, 1),
 }
 # filters run against the oracle only (no model): item lookups by text, sorting, translation
 ORACLE_FILTERS = {
-    "sort": (0, 1), "sort_natural": (0, 1), "sort_numeric": (0, 1), "map": (1, 1), "where": (1, 2), "reject": (1, 2),
-    "find": (1, 2), "find_index": (1, 2), "has": (1, 2), "reverse": (0, 0), "sum": (1, 1), "t": (0, 1), "gettext": (0, 0),
+    "sort": (0, 1), "sort_numeric": (0, 1), "where": (1, 2), "reject": (1, 2),
+    "find": (1, 2), "find_index": (1, 2), "has": (1, 2), "sum": (1, 1),
     "replace_last": (2, 2),  # whether the replacement text is ever converted depends on the texts
-    "pgettext": (1, 1),
 }
 # tag / expression sites: (name, source, model site or None, number of arguments)
 TAG_SITES = [
@@ -254,15 +255,15 @@ TAG_SITES = [
     ("if-lt", "{% if v < a %}x{% endif %}", None, 1), ("if-ge", "{% if v >= a %}x{% endif %}", None, 1),
     ("if-and-or", "{% if v and a or b %}x{% endif %}", None, 2), ("if-not", "{% if not v %}x{% endif %}", None, 0),
     ("case", "{% case v %}{% when a %}x{% when b %}y{% else %}z{% endcase %}", None, 2),
-    ("cycle", "{% cycle v, a %}{% cycle v, a %}", None, 1), ("cycle-group", "{% cycle v: a, b %}", None, 2),
-    ("include-name", "{% include v %}", None, 0), ("include-with", "{% include 'p' with v %}", None, 0),
-    ("include-for", "{% include 'p' for v %}", None, 0), ("include-kw", "{% include 'q', x: v %}", None, 0),
-    ("render-with", "{% render 'p' with v %}", None, 0), ("render-for", "{% render 'p' for v %}", None, 0), ("render-kw", "{% render 'q', x: v %}", None, 0),
-    ("ifchanged", "{% ifchanged %}{{ v }}{% endifchanged %}", None, 0),
+    ("cycle", "{% cycle v, a %}{% cycle v, a %}", "SOutAll", 1), ("cycle-group", "{% cycle v: a, b %}", None, 2),
+    ("include-name", "{% include v %}", None, 0), ("include-with", "{% include 'p' with v %}", "SOutAll", 0),
+    ("include-for", "{% include 'p' for v %}", None, 0), ("include-kw", "{% include 'q', x: v %}", "SOutAll", 0),
+    ("render-with", "{% render 'p' with v %}", "SOutAll", 0), ("render-for", "{% render 'p' for v %}", None, 0), ("render-kw", "{% render 'q', x: v %}", "SOutAll", 0),
+    ("ifchanged", "{% ifchanged %}{{ v }}{% endifchanged %}", "SOutAll", 0),
     ("translate-vars", "{% translate count: v, x: a %}Hello {{ x }}{% plural %}Hellos {{ x }} {{ count }}{% endtranslate %}", None, 1),
     ("macro", "{% macro m x, y: a %}{{ x }}{{ y }}{% endmacro %}{% call m v %}{% call m y: v %}", None, 1),
-    ("with", "{% with x: v %}{{ x }}{% endwith %}", None, 0),
-    ("ternary", "{{ v if a else b }}", None, 2), ("ternary-filters", "{{ v if a else b | upcase || append: a }}", None, 2),
+    ("with", "{% with x: v %}{{ x }}{% endwith %}", "SOutAll", 0),
+    ("ternary", "{{ v if a else b }}", "STernary", 2), ("ternary-filters", "{{ v if a else b | upcase || append: a }}", None, 2),
     ("default-allow-false", "{{ v | default: a, allow_false: b }}", None, 2),
     ("increment", "{% increment n %}{% decrement n %}{{ v }}", None, 0),
     ("tablerow-offset", "{% tablerow i in v cols: a offset: b %}{{ i }}{% endtablerow %}", None, 2),
@@ -620,7 +621,7 @@ ARGS2_QUICK = ["none", "undef", "i7", "ihuge", "pinf", "s_int", "s_long", "s_abc
 
 def run(ck: Check) -> None:
     ck.rule = (
-        "every modelled site (54 filters in 30 model sites, 17 tag/expression sources in 7 model sites) x every value class for the left value x every "
+        "every modelled site (62 filters in 38 model sites, 25 tag/expression sources in 9 model sites) x every value class for the left value x every "
         "class for each argument (one representative per class in quick, all representatives in thorough; two-argument sites with a reduced "
         "left set) x STRICT/WARN/LAX x sync/async: engine observation (ok | Liquid error | foreign class) compared inside Coq with the model; the "
         "same for oracle-only filters and tags (no model); primitive outcome tables (int float str Decimal ceil floor round getitem json) "
